@@ -104,6 +104,104 @@ func runHammer(kinds []string, g, nkeys, ops, procs int) error {
 	return nil
 }
 
+// runSharedHammer: one quiescent tree (built before the goroutines start) is read by g goroutines
+// at full speed: lookups of present and absent keys, extremes, short ranges and scans stopped
+// early. Every answer is compared with the one computed sequentially beforehand.
+func runSharedHammer(kn string, g, nkeys, ops, procs int) error {
+	old := runtime.GOMAXPROCS(procs)
+	defer runtime.GOMAXPROCS(old)
+	kind := MustKind(kn)
+	sub := NewSubject(kind, IntVals)
+	m := NewModel(kind)
+	for j := 0; m.Len() < nkeys && j < 8*nkeys; j++ {
+		k := kind.Canon(freshKey(kind, 77000000+j))
+		if _, dup := m.Get(k); !dup {
+			m.Put(k, j+1)
+			sub.Insert(k, j+1)
+		}
+	}
+	es := m.Sorted()
+	var absent [][]byte
+	for j := 0; len(absent) < 16 && j < 4096; j++ {
+		k := kind.Canon(freshKey(kind, 900000000+j))
+		if _, dup := m.Get(k); !dup {
+			absent = append(absent, k)
+		}
+	}
+	var wg sync.WaitGroup
+	errs := make([]error, g)
+	start := make(chan struct{})
+	for i := 0; i < g; i++ {
+		wg.Add(1)
+		go func(i int) {
+			defer wg.Done()
+			defer func() {
+				if r := recover(); r != nil && errs[i] == nil {
+					errs[i] = fmt.Errorf("goroutine %d (shared quiescent %s tree): a read-only call did not return normally: %v", i, kn, r)
+				}
+			}()
+			<-start
+			for n := 0; n < ops; n++ {
+				j := (n*7919 + i*31) % len(es)
+				switch {
+				case n%29 == 0 && len(absent) > 0:
+					if _, ok := sub.Search(absent[(n+i)%len(absent)]); ok {
+						errs[i] = fmt.Errorf("goroutine %d (shared %s tree), op %d: Search of an absent key reports present", i, kn, n)
+						return
+					}
+				case n%503 == 0:
+					if k, v, ok := sub.Maximum(); !ok || !kind.SameKey(k, es[len(es)-1].Raw) || v != es[len(es)-1].V {
+						errs[i] = fmt.Errorf("goroutine %d (shared %s tree), op %d: Maximum() = (%s,%d,%v), expected (%s,%d)", i, kn, n, kind.Show(k), v, ok, kind.Show(es[len(es)-1].Raw), es[len(es)-1].V)
+						return
+					}
+				case n%1013 == 0 && kind.HasRange():
+					hi := min(j+3, len(es)-1)
+					cnt := 0
+					bad := false
+					sub.Range(es[j].Raw, es[hi].Raw)(func(k []byte, v int) bool {
+						if j+cnt > hi || !kind.SameKey(k, es[j+cnt].Raw) || v != es[j+cnt].V {
+							bad = true
+						}
+						cnt++
+						return true
+					})
+					if bad || cnt != hi-j+1 {
+						errs[i] = fmt.Errorf("goroutine %d (shared %s tree), op %d: Range(%s,%s) yields %d pairs (wrong=%v), expected the %d stored keys between them", i, kn, n, kind.Show(es[j].Raw), kind.Show(es[hi].Raw), cnt, bad, hi-j+1)
+						return
+					}
+				case n%2011 == 0:
+					cnt := 0
+					bad := false
+					sub.All()(func(k []byte, v int) bool {
+						if !kind.SameKey(k, es[cnt].Raw) {
+							bad = true
+						}
+						cnt++
+						return cnt < 5 && cnt < len(es)
+					})
+					if bad {
+						errs[i] = fmt.Errorf("goroutine %d (shared %s tree), op %d: All() does not start with the smallest keys", i, kn, n)
+						return
+					}
+				default:
+					if v, ok := sub.Search(es[j].Raw); !ok || v != es[j].V {
+						errs[i] = fmt.Errorf("goroutine %d (shared %s tree), op %d: Search(%s) = (%d,%v), expected (%d,true)", i, kn, n, kind.Show(es[j].Raw), v, ok, es[j].V)
+						return
+					}
+				}
+			}
+		}(i)
+	}
+	close(start)
+	wg.Wait()
+	for _, e := range errs {
+		if e != nil {
+			return e
+		}
+	}
+	return nil
+}
+
 func hammerTrace(kinds []string, g, nkeys, ops, procs int, msg string) *Trace {
 	return &Trace{Property: "C16", Kinds: kinds, Failure: msg, Params: map[string]string{"part": "C-hammer",
 		"goroutines": strconv.Itoa(g), "nkeys": strconv.Itoa(nkeys), "ops": strconv.Itoa(ops), "gomaxprocs": strconv.Itoa(procs)}}
@@ -115,6 +213,12 @@ func replayHammer(tr *Trace) error {
 	ops, _ := strconv.Atoi(tr.Params["ops"])
 	procs, _ := strconv.Atoi(tr.Params["gomaxprocs"])
 	for i := 0; i < 5; i++ { // the failure depends on the schedule: several attempts
+		if tr.Params["shared"] == "1" {
+			if err := runSharedHammer(tr.Kinds[0], g, nk, ops, procs); err != nil {
+				return err
+			}
+			continue
+		}
 		if err := runHammer(tr.Kinds, g, nk, ops, procs); err != nil {
 			return err
 		}
@@ -143,9 +247,21 @@ func TestC16Hammer(t *testing.T) {
 		}
 		nkeys := pick(rt, []int{1, 50, 1000}, "hkeys")
 		procs := pick(rt, []int{16, 16, 8, 4}, "hprocs")
-		err := runHammer(kinds, g, nkeys, ops, procs)
+		shared := drawInt(rt, 0, 2, "shared") == 0
+		var err error
+		if shared {
+			// one quiescent tree read by all goroutines (no collation trees: their codec writes scratch state per query)
+			kinds = kinds[:1]
+			nkeys = max(nkeys, 2)
+			err = runSharedHammer(kinds[0], g, nkeys, ops, procs)
+		} else {
+			err = runHammer(kinds, g, nkeys, ops, procs)
+		}
 		tr := hammerTrace(kinds, g, nkeys, ops, procs, "")
-		stats.AddCase(true, tr.Hash()^uint64(g*131+nkeys*7+procs), []string{"part_C_hammer", "hammer_goroutines_" + strconv.Itoa(g)}, func() any {
+		if shared {
+			tr.Params["shared"] = "1"
+		}
+		stats.AddCase(true, tr.Hash()^uint64(g*131+nkeys*7+procs), []string{"part_C_hammer", "hammer_goroutines_" + strconv.Itoa(g), "hammer_shared_" + strconv.FormatBool(shared)}, func() any {
 			return map[string]any{"part": "C-hammer", "goroutines": g, "kinds": kinds, "keys_per_tree": nkeys, "ops_per_goroutine": ops, "gomaxprocs": procs}
 		})
 		if err != nil {
